@@ -283,6 +283,9 @@ func (ex *Exec) relevantAxioms(roots []*Term) (out []*axEntry, nonlinear bool) {
 
 // check decides pc /\ extras together with the relevant ground lemmas.
 func (ex *Exec) check(extras []*Term, want []*Term) (string, map[string]ModelVal) {
+	if !ex.deadline.IsZero() && time.Now().After(ex.deadline) {
+		return "unknown", nil // the run's time budget is spent: everything further is inconclusive
+	}
 	ax, nl := ex.relevantAxioms(extras)
 	if len(ax) == 0 {
 		return ex.sol.Check(extras, want, nl)
@@ -637,6 +640,9 @@ func (ex *Exec) obligation(kind, label string, ob *Term, margin *Term, site ssa.
 		}
 	default:
 		ex.res.Undischarged = append(ex.res.Undischarged, label+" @ "+pos+": solver "+r)
+		if len(ex.res.Undischarged) >= 4 {
+			panic(abortPath{"too many undecided obligations on this path"})
+		}
 	}
 }
 
